@@ -4,3 +4,4 @@ import FB.Prog
 import FB.View
 import FB.Spec
 import FB.DSL
+import FB.Impl
